@@ -29,7 +29,7 @@ def gen_cl_small(rng, n, limits=False):
         cl = rng.choice([d, d, d, max(0, d - rng.randint(1, 5)), d + rng.randint(1, 9), 0, -1])
         buf = rng.choice([1, 2, 3, 4, 7, 8, 16, 64, 1000])
         mb = -1
-        if limits:
+        if limits or rng.random() < 0.15:
             mb = rng.choice([0, 1, d - 1, d, d + 1, max(0, d // 2), d + 50, -1])
             mb = max(mb, -1)
         style = rng.choice(['full', 'short', 'short', 'byte', 'plain'])
@@ -113,9 +113,34 @@ def gen_chunked(rng, n, limits=False, big=False):
             t = bl.run_real('chunked', inp, cl, buf, mb, kind=kind, expect=expect, ctype=rng.choice(bl.CTYPES))
         elif sched == 'byte':
             t = bl.run_real('chunked', inp, cl, buf, mb, schedule=[1] * (len(inp) + 2), kind=kind, expect=expect, ctype=rng.choice(bl.CTYPES))
+        elif kind != 'legal' and rng.random() < 0.5:
+            # the handler looks at the parsed views (forms, params, json) before the raw body: a framing error is a client error there too
+            t = bl.run_real('chunked', inp, cl, buf, mb, rng=rng, short_p=rng.choice([0.3, 1.0]), kind=kind, expect=expect,
+                            ctype=rng.choice([None, 'application/x-www-form-urlencoded', 'text/plain', 'application/json']), via='views')
         else:
             t = bl.run_real('chunked', inp, cl, buf, mb, rng=rng, short_p=rng.choice([0.3, 1.0]), kind=kind, expect=expect, ctype=rng.choice(bl.CTYPES))
         out.append(t)
+    return out
+
+
+def gen_multipart_limits(rng, n):
+    """The size limit counts every byte of the body, whatever the media type makes of it: small well-formed multipart forms
+    followed by a long epilogue (and forms whose bulk is inside a part), Content-Length framing, limits around the form size."""
+    from harness.checks import mplib
+    out = []
+    for _ in range(n):
+        b = rng.choice([b'B', b'Bx', b'--'])
+        fields = [{'name': 'a', 'value': 'v' * rng.choice([0, 3, 40])}]
+        if rng.random() < 0.4:
+            fields.append({'name': 'f', 'filename': 'u.bin', 'ctype': 'application/octet-stream', 'data': b'D' * rng.choice([0, 10, 300])})
+        form = mplib.encode_form(fields, b, epilogue=b'')
+        epi = rng.choice([b'', b'\r\n', b'\r\n' + b'x' * rng.choice([30, 400, 3000]), b'e' * rng.choice([100, 1500])])
+        body = form + epi
+        buf = rng.choice([16, 64, 256, 1000])
+        mb = max(0, rng.choice([len(form) - 5, len(form), len(form) + 1, len(form) + 20, len(body) - 1, len(body), len(body) + 1, len(body) // 2]))
+        cl = len(body)
+        out.append(bl.run_real('cl', body, cl, buf, mb, rng=rng, short_p=rng.choice([0.3, 1.0]),
+                               ctype='multipart/form-data; boundary=' + b.decode()))
     return out
 
 
@@ -194,7 +219,7 @@ def run(chk, prop):
         small = gen_chunked(rng, n_small)
         large = gen_chunked(rng, n_large // 2, big=True)
     else:
-        small = gen_cl_small(rng, n_small // 2, limits=True) + gen_chunked(rng, n_small // 2, limits=True)
+        small = gen_cl_small(rng, n_small // 2, limits=True) + gen_chunked(rng, n_small // 2, limits=True) + gen_multipart_limits(rng, n_small // 10)
         large = gen_cl_large(rng, n_large, limits=True)
         bigc = gen_chunked(rng, n_large // 2, limits=True, big=True)
         big_chunked_direct(chk, bigc, clauses)
